@@ -58,6 +58,7 @@ struct Explorer {
   PortSide * Hs = nullptr; // history working set (collision histories)
   Forced hist_forced;
   bool collect_calls = false;
+  int dense = 0;
   struct CallInfo { int unit; std::vector<double> args; bool has_first = false, has_last = false; Forced first, last; };
   std::map<std::string, CallInfo> calls;
   uint32_t last_ctx_for_sweep = 0;
@@ -338,6 +339,9 @@ struct Explorer {
   std::vector<double> alphabet(const Forced & base, size_t i)
   {
     std::vector<double> al = {0.5};
+    // optional dense interior grid for continuous draws (C04: branches the port samples differently from the model - the
+    // documented revisions - have no model-side thresholds to steer by)
+    for (int k = 0; k < dense; k++) al.push_back((k + 0.5) / dense);
     bool model = use_ref && R.available;
     if (!model) { al.push_back(1e-12); al.push_back(1 - 1e-12); }
     if (model) {
@@ -620,6 +624,7 @@ struct Opts {
   std::string litdir;
   bool calls = false;
   long c_cap = 200000;
+  int dense = 0;
 };
 
 static std::string cfg_json(const Config & c)
@@ -667,6 +672,7 @@ static std::string run_config(const Config & c, const Opts & o)
     }
   }
   X.collect_calls = o.calls;
+  X.dense = o.dense;
   d0ref::mon.log_calls = o.calls;
   if (o.ref) ier = X.R.init(c, PHASE);
   int perr = X.P.init(c, PHASE);
@@ -882,6 +888,7 @@ int main(int argc, char ** argv)
     else if (a == "--calls") o.calls = true;
     else if (a == "--c-cap") o.c_cap = atol(nxt().c_str());
     else if (a == "--nme-set") NME_SET = atoi(nxt().c_str()) ? 1 : 0;
+    else if (a == "--dense") o.dense = atoi(nxt().c_str());
     else if (a == "--global-deadline") global_deadline = atof(nxt().c_str());
     else if (a == "--horizon") HORIZON = atol(nxt().c_str());
     else if (a == "--timeout") per_cfg_timeout = atof(nxt().c_str());
